@@ -27,7 +27,7 @@ struct Step {
 	int a = 0, b = 0;       // arguments (index / first,last / stride / count)
 	int mode = 0;           // receiver category: 0 = rvalue, 1 = lvalue, 2 = const lvalue
 	int nargs = 0;          // S_CALL: per-argument kind: 0 = index, 1 = range [a,b), 2 = all
-	int ak[3]{}, aa[3]{}, ab[3]{};
+	int ak[4]{}, aa[4]{}, ab[4]{};
 };
 struct Chain {
 	int  n = 0;
@@ -140,7 +140,7 @@ inline bool parse_chain(std::string const& str, Chain& c) {
 		if(s.kind < 0) return false;
 		if(s.kind == S_CALL) {
 			s.nargs = static_cast<int>(parts.size()) - 1;
-			if(s.nargs < 1 || s.nargs > 3) return false;
+			if(s.nargs < 1 || s.nargs > 4) return false;
 			for(int k = 0; k < s.nargs; ++k) {
 				std::string const& a = parts[static_cast<std::size_t>(k) + 1];
 				if(a.empty()) return false;
